@@ -509,7 +509,8 @@ pub fn plan(prop: &str, tier: &str) -> Option<Plan> {
             let fl = ["c10"];
             if q {
                 for &prof in &["chk", "rel"] {
-                    s.push(e1(prop, "u32", H_GOOD, 0, "mut1+ch0+shape/capall+caphuge+fill", &fl, 33, 2, 1, prof, 45.0));
+                    s.push(e1(prop, "u32", H_GOOD, 0, "mut1+ch0+shape/capall+caphuge+fill", &fl, 24, 2, 1, prof, 45.0));
+                    s.push(e1(prop, "u32", H_GOOD, 0, "mut1+ch0+shape/cap+caphuge+fill", &fl, 33, 2, 1, prof, 45.0));
                     s.push(e1(prop, "u32", H_GOOD, 0, "capall+caphuge", &fl, 130, 1, 0, prof, 45.0));
                     s.push(e1(prop, "u32", H_GOOD, 0, "withcap", &fl, 0, 1, 0, prof, 45.0));
                     s.push(e1(prop, "zst", H_GOOD, 0, "withcap", &fl, 0, 1, 0, prof, 45.0));
@@ -522,7 +523,7 @@ pub fn plan(prop: &str, tier: &str) -> Option<Plan> {
                         s.push(x);
                     }
                 }
-                bounds = json!({"E1": "every reserve/try_reserve n in [0,2cap+4], every shrink_to m in [0,cap+2], usize/isize windows, at every state with <=1 deviation up to N=33 and on the growth path to 130; with_capacity(n) for n<=1100 and 2^k+-1 to 2^20", "profiles": "chk and rel"});
+                bounds = json!({"E1": "every reserve/try_reserve n in [0,2cap+4], every shrink_to m in [0,cap+2], usize/isize windows, at every state with <=1 deviation up to N=24 (boundary menu up to N=33) and on the growth path to 130; with_capacity(n) for n<=1100 and 2^k+-1 to 2^20", "profiles": "chk and rel"});
             } else {
                 for &prof in &["chk", "rel"] {
                     for &hk in &[H_GOOD, H_LOW, H_CONST] {
